@@ -263,6 +263,13 @@ func (fv *FV) run() {
 			in = fv.loopHead(li, in)
 		}
 		fv.curBlock = b
+		// vacuity guard: the block is reachable under the assumptions collected so far
+		if !in.dead && b != fn.Blocks[0] && len(b.Instrs) > 1 {
+			fv.obls = append(fv.obls, &Obligation{
+				Name: fmt.Sprintf("%s.%s#cover{block %d %s}", shortPkg(fv.pkgPath), fv.relName, b.Index, b.Comment), Func: shortPkg(fv.pkgPath) + "." + fv.relName,
+				Kind: "cover", Guard: in.reach, Goal: "false", Prefix: len(fv.script), Expect: "sat", Props: fv.defaultProps(), Region: fv.region,
+			})
+		}
 		for _, ins := range b.Instrs {
 			if in.dead {
 				break
@@ -482,6 +489,11 @@ func (fv *FV) loopHead(li *LoopInfo, in *State) *State {
 	var invs []*Clause
 	if li.spec != nil {
 		invs = li.spec.Invariants
+	}
+	if li.spec != nil {
+		for i, a := range li.spec.Entry {
+			fv.obligeSpec(in, "assert", fmt.Sprintf("loop%d entry:%s", li.ord, clauseLabel(a, i)), ctx, a, li.head.Instrs[0].Pos(), a.Props, fmt.Sprintf("loop %d entry assertion", li.ord))
+		}
 	}
 	for i, inv := range invs {
 		fv.obligeSpec(in, "inv-init", fmt.Sprintf("loop%d:%s", li.ord, clauseLabel(inv, i)), ctx, inv, li.head.Instrs[0].Pos(), inv.Props, fmt.Sprintf("loop %d invariant", li.ord))
